@@ -17,7 +17,8 @@ RULE = (
     "UTC offsets / representations / 24:00 form; the last member of a bounded "
     "series is always probed. Oracle = the library's own iteration "
     "(materialised past every probe; iteration itself is decided by C12): "
-    "get_is_valid(p) <=> a member has p's instant; r[i] is the i-th member "
+    "get_is_valid(p) <=> a member has p's instant (also for probes a fraction "
+    "of a second off a member); r[i] is the i-th member "
     "(IndexError past a bounded end); get_next/get_prev move to the adjacent "
     "member or None at the ends (both directions for exact intervals, the "
     "iteration direction for nominal ones); get_first_after(p) is the "
@@ -33,6 +34,10 @@ ASSUMPTIONS = [
     "horizon are not judged",
 ]
 KM = 60
+
+
+def inst_is_fractional(kw):
+    return any(k.endswith("_decimal") and kw[k] for k in kw)
 
 
 def check_case(case):
@@ -134,6 +139,8 @@ def check_case(case):
                     classes.append("probe/between")
                 elif lo is not None:
                     classes.append("probe/outside")
+                if inst_is_fractional(pk):
+                    classes.append("probe/fractional_second")
                 got = r.get_is_valid(p)
                 if bool(got) != is_member:
                     fail = "get_is_valid: %s .get_is_valid(%s) = %r but " \
@@ -141,7 +148,7 @@ def check_case(case):
                                text, M.fmt_kw(pk), got,
                                "yields" if is_member else "never yields")
                     break
-                if has_start and not descending:
+                if has_start and not descending and not inst_is_fractional(pk):
                     later = [j for j, x in enumerate(mi) if x > ip]
                     got = r.get_first_after(p)
                     if later:
@@ -186,6 +193,13 @@ def st_case(draw):
         picks.append(("member", max(ri)))
     for _, inst in picks:
         probes.append(G.respell(draw, cm, inst))
+    if draw(st.sampled_from([False, True])):
+        # a probe a fraction of a second after a member is not a member
+        # (get_is_valid only; get_first_after is stated for whole seconds)
+        kw = G.respell(draw, cm, draw(st.sampled_from(ri)), allow24=False)
+        kw["second_of_minute_decimal"] = draw(st.sampled_from([0.5, 0.25, 0.001,
+                                                               0.999]))
+        probes.append(kw)
     top = len(ri) + 2
     return {"mode": mode, "spec": spec, "probes": probes,
             "indices": draw(st.lists(st.integers(0, top), min_size=1, max_size=3)),
